@@ -4,8 +4,8 @@ import PPProofs.Lemmas.ParseTerm
   the location-restricted hypothesis `NHge p e L` — the nested call does not hang at locations `≥ L` — which is what a
   lexicographic induction on (remaining input, rank) can supply.  INTERMEDIATE: the family below covers try_parse /
   can_parse_next, pre-parsing, `And` (with the sharper statement: operands after one that consumed need `NHge … (loc+1)`
-  only), `MatchFirst`, plain enhancement, `Opt`-like single calls; `Or`, repetition, `SkipTo`, `parseImpl`, `parseStep`
-  and the final induction are not ported.
+  only), `MatchFirst`, `Or`, repetition, plain enhancement; `SkipTo`, `parseImpl`, `parseStep` and the final induction
+  are not ported.
 -/
 namespace PP.Parse
 
@@ -251,5 +251,192 @@ theorem enhanceImpl_nohang_ge {p : P} (acts : Bool) (x : Option Nat) (loc : Nat)
     | fail c l => cases c <;> simp
     | idx => simp
     | hang => exact absurd h0 (hx x rfl _ (Nat.le_refl _) _ _)
+
+/-! ### Or -/
+
+theorem orPass1_nohang_ge {p : P} (nameLen : Nat → Nat) (slen loc : Nat) :
+    ∀ es, (∀ e ∈ es, NHge p e loc) → ∀ a, orPass1 p nameLen slen loc es a ≠ none := by
+  intro es
+  induction es with
+  | nil => intro _ a; simp [orPass1]
+  | cons x es ih =>
+    intro hes a
+    have ih' := ih (fun e he => hes e (List.mem_cons_of_mem _ he))
+    unfold orPass1
+    have := tryParse_nohang_ge (hes x (by simp)) loc (Nat.le_refl _) true false
+    cases h0 : tryParse p x loc true false with
+    | ok l ts => exact ih' _
+    | fail c l =>
+      simp only
+      split
+      · exact ih' _
+      · split
+        · exact ih' _
+        · exact ih' _
+    | idx => exact ih' _
+    | hang => exact absurd h0 this
+
+theorem orPass2_nohang_ge {p : P} (loc : Nat) :
+    ∀ ms, (∀ m ∈ ms, NHge p m.2 loc) → ∀ longest mx, orPass2 p loc ms longest mx ≠ .inl .hang := by
+  intro ms
+  induction ms with
+  | nil => intro _ longest mx; simp [orPass2]
+  | cons m ms ih =>
+    intro hms longest mx
+    have ih' := ih (fun e he => hms e (List.mem_cons_of_mem _ he))
+    rcases m with ⟨loc1, x⟩
+    have hx : NHge p x loc := hms (loc1, x) (by simp)
+    have step : orPass2.orStep p loc loc1 x ms longest mx ≠ .inl .hang := by
+      unfold orPass2.orStep
+      cases h0 : p x loc true true with
+      | ok l2 ts2 =>
+        simp only
+        split
+        · simp
+        · exact ih' _ _
+      | fail c l =>
+        cases c
+        · exact ih' _ _
+        · simp
+        · simp
+      | idx => simp
+      | hang => exact absurd h0 (hx _ (Nat.le_refl _) _ _)
+    unfold orPass2
+    cases longest with
+    | none => exact step
+    | some llt =>
+      rcases llt with ⟨ll0, lt0⟩
+      simp only
+      split
+      · simp
+      · exact step
+
+theorem orAt_nohang_ge {p : P} (nameLen : Nat → Nat) (slen : Nat) (acts : Bool) (es : List Nat) (loc : Nat)
+    (hes : ∀ e ∈ es, NHge p e loc) : orAt p nameLen slen acts es loc ≠ .hang := by
+  unfold orAt
+  cases h1 : orPass1 p nameLen slen loc es {} with
+  | none => exact absurd h1 (orPass1_nohang_ge _ _ _ _ hes _)
+  | some a =>
+    have hc : ∀ m ∈ sortDesc a.cands, NHge p m.2 loc := by
+      intro m hm
+      rcases orPass1_cands _ _ _ _ _ _ h1 m (mem_sortDesc hm) with h | h
+      · simp at h
+      · exact hes _ h
+    simp only
+    split
+    · exact orAfter_nohang _ _ _
+    · rename_i hne
+      split
+      · split
+        · rename_i l0 e0 rest heq
+          exact hc (l0, e0) (by rw [heq]; simp) _ (Nat.le_refl _) _ _
+        · rename_i heq
+          have := sortDesc_eq_nil heq
+          simp [this] at hne
+      · have h2 := orPass2_nohang_ge loc (sortDesc a.cands) hc none a.mx
+        generalize orPass2 p loc (sortDesc a.cands) none a.mx = r at h2
+        cases r with
+        | inl o => simp only; intro ho; subst ho; exact h2 rfl
+        | inr q =>
+          rcases q with ⟨lg, mx'⟩
+          cases lg with
+          | none => exact orAfter_nohang _ _ _
+          | some llt => rcases llt with ⟨ll, lt⟩; simp
+
+theorem orImpl_nohang_ge {p : P} (g : Grammar) (nd : Node) (s : List Char) (acts : Bool) (es : List Nat) (loc : Nat)
+    (hb : BndAll s.length p) (hig : ∀ e ∈ nd.ignore, NHge p e loc ∧ IgnAdv p e) (hes : ∀ e ∈ es, NHge p e loc) :
+    orImpl p g nd s acts es loc ≠ .hang := by
+  unfold orImpl
+  have h1 : (if es.all (callPreOf g) then preParse p nd s loc else PreR.at loc) ≠ .abort .hang ∧
+      ∀ l, (if es.all (callPreOf g) then preParse p nd s loc else PreR.at loc) = .at l → loc ≤ l := by
+    split
+    · exact ⟨preParse_nohang_ge nd s hb hig loc (Nat.le_refl _), fun l h => preParse_ge p nd s loc l h⟩
+    · exact ⟨by simp, fun l h => by simp at h; omega⟩
+  generalize (if es.all (callPreOf g) then preParse p nd s loc else PreR.at loc) = r at h1
+  cases r with
+  | abort o => simp only; intro ho; subst ho; exact h1.1 rfl
+  | «at» l => exact orAt_nohang_ge _ _ _ _ _ (fun e he => (hes e he).mono (h1.2 l rfl))
+
+/-! ### repetition -/
+
+theorem manyPre_nohang_ge {p : P} (nd : Node) (slen : Nat) {L : Nat} (hb : BndAll slen p)
+    (hig : ∀ e ∈ nd.ignore, NHge p e L ∧ IgnAdv p e) (loc : Nat) (hL : L ≤ loc) : manyPre p nd slen loc ≠ .abort .hang := by
+  unfold manyPre
+  split
+  · simp
+  · exact skipIgnorables_nohang_ge hb _ hig _ _ hL (by omega) (by omega)
+
+theorem manyPre_ge (p : P) (nd : Node) (slen loc preloc : Nat) (h : manyPre p nd slen loc = .at preloc) : loc ≤ preloc := by
+  unfold manyPre at h
+  split at h
+  · simp at h; omega
+  · exact skipIgnorables_ge _ _ _ _ _ _ h
+
+theorem manyLoop_nohang_ge {p : P} (nd : Node) (acts : Bool) (slen x : Nat) (ne : Option Nat) {L : Nat}
+    (hb : BndAll slen p) (hig : ∀ e ∈ nd.ignore, NHge p e L ∧ IgnAdv p e) (hx : NHge p x L)
+    (hne : ∀ n, ne = some n → NHge p n L) (ha : ManyAdv p nd slen x) :
+    ∀ k loc acc, L ≤ loc → 1 ≤ k → slen + 2 ≤ k + loc → manyLoop p nd acts slen x ne k loc acc ≠ .hang := by
+  intro k
+  induction k with
+  | zero => intro loc acc _ h1; omega
+  | succ k ih =>
+    intro loc acc hL _ h2
+    unfold manyLoop
+    cases hs : stopCheck p ne loc with
+    | none => exact absurd hs (stopCheck_nohang_ge hne _ hL)
+    | some b =>
+      cases b with
+      | true => simp
+      | false =>
+        simp only
+        have hmb := manyPre_bnd (hb (max loc (slen + 1)) (by omega)) nd slen loc (by omega)
+        cases hm : manyPre p nd slen loc with
+        | abort o =>
+          cases o with
+          | ok e' ts' => simp
+          | fail c l => cases c <;> simp
+          | idx => simp
+          | hang => exact absurd hm (manyPre_nohang_ge nd slen hb hig _ hL)
+        | «at» preloc =>
+          rw [hm] at hmb
+          have hpl : preloc ≤ max loc (slen + 1) := hmb
+          have hpg := manyPre_ge p nd slen loc preloc hm
+          simp only
+          cases h0 : p x preloc acts true with
+          | ok l ts =>
+            have hl := ha _ _ _ _ _ hm h0
+            have hu := hb.ok_le h0
+            simp only
+            rw [if_neg (by omega)]
+            exact ih _ _ (by omega) (by omega) (by omega)
+          | fail c l => cases c <;> simp
+          | idx => simp
+          | hang => exact absurd h0 (hx _ (by omega) _ _)
+
+theorem manyImpl_nohang_ge {p : P} (hadv : Adv p) (nd : Node) (acts : Bool) (slen x : Nat) (ne : Option Nat) (loc : Nat)
+    (hb : BndAll slen p) (hig : ∀ e ∈ nd.ignore, NHge p e loc ∧ IgnAdv p e) (hx : NHge p x loc)
+    (hne : ∀ n, ne = some n → NHge p n loc) (ha : ManyAdv p nd slen x) :
+    manyImpl p nd acts slen x ne loc ≠ .hang := by
+  have hbody : (match p x loc acts true with
+      | .ok l ts => manyLoop p nd acts slen x ne (slen + 2) l ts
+      | o => o) ≠ .hang := by
+    cases h : p x loc acts true with
+    | ok l' ts' =>
+      have := hadv _ _ _ _ _ _ h
+      exact manyLoop_nohang_ge nd acts slen x ne hb hig hx hne ha _ _ _ this (by omega) (by omega)
+    | fail c l' => simp
+    | idx => simp
+    | hang => exact absurd h (hx _ (Nat.le_refl _) _ _)
+  unfold manyImpl
+  cases ne with
+  | none => exact hbody
+  | some n =>
+    simp only
+    have := tryParse_nohang_ge (hne n rfl) loc (Nat.le_refl _) false false
+    cases ht : tryParse p n loc false false with
+    | ok l ts => exact hbody
+    | fail c l => simp
+    | idx => simp
+    | hang => exact absurd ht this
 
 end PP.Parse
